@@ -27,7 +27,7 @@ type SortCol struct {
 
 // BOp is a buffer operation.
 type BOp struct {
-	K string `json:"k"`           // "write" N rows | "sort" | "read" | "reset" | "flush" (sorting writer)
+	K string `json:"k"` // "write" N rows | "sort" | "read" | "reset" | "flush" (sorting writer)
 	N int    `json:"n,omitempty"`
 }
 
@@ -56,14 +56,29 @@ func genCase(t *rapid.T) Case {
 		rep := []string{"req", "opt", "opt"}[rapid.IntRange(0, 2).Draw(t, "krep")]
 		root.Children = append(root.Children, ref.Node{Name: fmt.Sprintf("c%d", i+1), Rep: rep, Kind: "leaf", Leaf: gen.LeafID(t, keyLeaves, "kleaf")})
 	}
-	if rapid.IntRange(0, 2).Draw(t, "payload") == 0 {
-		root.Children = append(root.Children, ref.Node{Name: fmt.Sprintf("c%d", nk+1), Rep: "rep", Kind: "leaf", Leaf: "string"})
+	// a repeated payload column after, between or before the key candidates (rows with several
+	// values in it shift the position of the keys inside the row)
+	keyAt := []int{0, 1, 2, 3}[:nk+1] // child index of key candidate i (1-based)
+	if rapid.IntRange(0, 2).Draw(t, "payload") != 1 {
+		pos := rapid.IntRange(1, nk+1).Draw(t, "payloadpos")
+		ch := append([]ref.Node{}, root.Children[:pos]...)
+		ch = append(ch, ref.Node{Rep: "rep", Kind: "leaf", Leaf: "string"})
+		ch = append(ch, root.Children[pos:]...)
+		root.Children = ch
+		for i := 1; i <= nk; i++ {
+			if i >= pos {
+				keyAt[i] = i + 1
+			}
+		}
+		for i := range root.Children {
+			root.Children[i].Name = fmt.Sprintf("c%d", i)
+		}
 	}
 	c.Schema = root
 	ns := rapid.IntRange(1, nk).Draw(t, "nsort")
 	perm := rapid.Permutation([]int{1, 2, 3}[:nk]).Draw(t, "perm")
 	for i := 0; i < ns; i++ {
-		c.Sorting = append(c.Sorting, SortCol{Col: perm[i], Desc: rapid.Bool().Draw(t, "desc"), NullsFirst: rapid.Bool().Draw(t, "nf")})
+		c.Sorting = append(c.Sorting, SortCol{Col: keyAt[perm[i]], Desc: rapid.Bool().Draw(t, "desc"), NullsFirst: rapid.Bool().Draw(t, "nf")})
 	}
 	c.Plan = gen.RowsAtLeast(t, &c.Schema, 8, []int{0, 10, 70}[rapid.IntRange(0, 2).Draw(t, "min")], kit.Pick(300, 2000),
 		gen.ValueOpts{Style: []gen.Style{gen.SmallDom, gen.SmallDom, gen.Mixed}[rapid.IntRange(0, 2).Draw(t, "style")], Leaf: gen.Opts{NoNaN: true, MaxBytes: 12}})
